@@ -30,6 +30,22 @@ def coq_files():
     return [f for f in fs if '/Extract/' not in f]
 
 
+class flock:
+    """serialises the builds of concurrently running checks (one lock file per build directory and kind)"""
+    def __init__(self, name, where=None):
+        where = where or BUILD
+        os.makedirs(where, exist_ok=True)
+        self.path = '%s/.%s.lock' % (where, name)
+    def __enter__(self):
+        import fcntl
+        self.f = open(self.path, 'w')
+        fcntl.flock(self.f, fcntl.LOCK_EX)
+    def __exit__(self, *a):
+        import fcntl
+        fcntl.flock(self.f, fcntl.LOCK_UN)
+        self.f.close()
+
+
 def write_coqproject():
     lines = ['-R theories LV',
              '-arg -w -arg -notation-overridden,-deprecated-hint-without-locality,-deprecated-instance-without-locality,-deprecated-hint-rewrite-without-locality']
@@ -44,10 +60,11 @@ def write_coqproject():
 
 def coq_make(target=None, timeout=3000):
     """Full .vo build (never -vos) of one target (and its closure) or of everything."""
-    write_coqproject()
-    tgt = ('theories/%s.vo' % target) if target else ''
-    rc, out, dt = sh('timeout %d make -j16 %s' % (timeout, tgt), cwd=COQ, timeout=timeout + 30)
-    return rc == 0, out, dt
+    with flock('coq', COQ):   # the .vo tree is shared by every check (and by checks run against scratch worktrees of /repo)
+        write_coqproject()
+        tgt = ('theories/%s.vo' % target) if target else ''
+        rc, out, dt = sh('timeout %d make -j16 %s' % (timeout, tgt), cwd=COQ, timeout=timeout + 30)
+        return rc == 0, out, dt
 
 
 def coq_closure(target):
@@ -149,6 +166,11 @@ def extract_units():
 def build_ocaml():
     d = BUILD + '/ocaml'
     os.makedirs(d, exist_ok=True)
+    with flock('ocaml', os.path.realpath(d)):
+        return _build_ocaml(d)
+
+
+def _build_ocaml(d):
     srcs = sorted(glob.glob(V + '/ocaml/*.ml'))
     vos = glob.glob(COQ + '/theories/**/*.vo', recursive=True)
     newest = max([os.path.getmtime(x) for x in srcs + vos + glob.glob(COQ + '/extract.d/*.ex') + [V + '/py/vlib.py']])
@@ -203,9 +225,21 @@ def run_model(cmd, cases, outfile, timeout=1800):
 
 # ---------------------------------------------------------------- Go harness (built from /repo's CURRENT tree)
 def build_go():
-    sh([V + '/bin/mkoverlay', REPO, BUILD])
-    rc, out, dt = sh('go build -tags verif -overlay %s/overlay.json -o %s/vh ./internal/verifh/vh' % (BUILD, BUILD), cwd=REPO, timeout=1500)
-    return rc == 0, out, dt
+    with flock('go'):
+        sh([V + '/bin/mkoverlay', REPO, BUILD])
+        # built under a private name, then moved over the shared binary: a check that is running vh keeps its (old) file
+        tmp = '%s/vh.%d.tmp' % (BUILD, os.getpid())
+        rc, out, dt = sh('go build -tags verif -overlay %s/overlay.json -o %s ./internal/verifh/vh' % (BUILD, tmp), cwd=REPO, timeout=1500)
+        if rc == 0:
+            dst = BUILD + '/vh'
+            same = os.path.exists(dst) and os.path.getsize(dst) == os.path.getsize(tmp) and open(dst, 'rb').read() == open(tmp, 'rb').read()
+            if same:
+                os.remove(tmp)
+            else:
+                os.replace(tmp, dst)
+        elif os.path.exists(tmp):
+            os.remove(tmp)
+        return rc == 0, out, dt
 
 
 def run_vh(cmd, args, timeout=1800):
